@@ -143,6 +143,15 @@ def run(chk):
         chk.ok("C14.index", ix, "index and unindex derive the key with the same function; entries are appended (registration order kept)")
     else:
         chk.violation("C14.index", ix, "index_resource / unindex_resource", "same key derivation, append / remove", "index and unindex disagree on the key or the order")
+    kf = repo.func(MOD, "UrlDispatcher._get_resource_index_key")
+    krets = [r for r in ast.walk(kf.node) if isinstance(r, ast.Return)]
+    badk = [r for r in krets if M.match(M.compile_pat("$X.rstrip('/') or '/'"), r.value) is None]
+    if krets and not badk:
+        chk.ok("C14.index", kf, "every index key is normalised the same way (trailing slash stripped, root is '/'): plain and variable resources with the same fixed prefix share one candidate list, so registration order decides among them")
+    else:
+        for r in badk or [kf.node]:
+            chk.violation("C14.index", r, K.short(r) if isinstance(r, ast.Return) else "_get_resource_index_key", "return <key>.rstrip('/') or '/'",
+                          "some resources are indexed under a key that keeps the trailing slash: `/docs/` and `/docs/{path:.*}` land in different candidate lists and the longer key is tried first regardless of registration order")
     rg = repo.func(MOD, "UrlDispatcher.register_resource")
     gr = cfg_of(rg.node)
     apps = K.nodes_matching(rg, "self._resources.append(resource)")
